@@ -2,7 +2,7 @@
    every account list / destination list and every oracle that is only assumed not to lie when
    it answers `unsat` (it may answer `unknown` at will). *)
 From Coq Require Import ZArith List Bool Lia.
-From HV Require Import Gen.GenBranch Model.BranchPoints.
+From HV Require Import Gen.GenBranch Gen.GenAssertBranch Model.BranchPoints.
 Import ListNotations.
 Open Scope Z_scope.
 
@@ -166,6 +166,51 @@ Proof.
   - apply in_map_iff. exists (dst v). split; [reflexivity|exact Hk].
   - apply Z.eqb_refl.
 Qed.
+
+(* ------------------------------------------------------------------ vm.assert* / vm.assume *)
+
+(* every input on which the asserted relation is false is covered by an alternative that ENDS AS A
+   FAILED ASSERTION: a counterexample is never lost at this point, whatever the solver answers *)
+Lemma assert_failure_reported : forall c v,
+  oracle_sound -> path v -> c v = false ->
+  exists k, In (true, k) (assert_alternatives V chk c) /\ k v = true.
+Proof.
+  intros c v Hor Hp Hc. unfold assert_alternatives.
+  destruct (assert_all_fail (chk c)) eqn:Ea.
+  - exists (fun _ => true). split; [left; reflexivity | reflexivity].
+  - exists (fun v0 => negb (c v0)). split.
+    + apply in_or_app. left.
+      assert (Hk : assert_fail_keep (chk (fun v0 => negb (c v0))) = true).
+      { destruct (assert_fail_keep (chk (fun v0 => negb (c v0)))) eqn:E; [reflexivity|].
+        unfold assert_fail_keep in E. apply negb_false_iff in E. apply Z.eqb_eq in E.
+        pose proof (Hor _ E v Hp) as H. cbn in H. rewrite Hc in H. discriminate. }
+      rewrite Hk. left. reflexivity.
+    + cbn. rewrite Hc. reflexivity.
+Qed.
+
+(* a state that ends as a failed assertion only describes inputs on which the relation is false *)
+Lemma assert_failure_sound : forall c k v,
+  oracle_sound -> path v -> In (true, k) (assert_alternatives V chk c) -> k v = true -> c v = false.
+Proof.
+  intros c k v Hor Hp Hin Hk. unfold assert_alternatives in Hin.
+  destruct (assert_all_fail (chk c)) eqn:Ea.
+  - unfold assert_all_fail in Ea. apply Z.eqb_eq in Ea. exact (Hor _ Ea v Hp).
+  - apply in_app_or in Hin. destruct Hin as [Hin | Hin].
+    + destruct (assert_fail_keep (chk (fun v0 => negb (c v0)))); [|destruct Hin].
+      destruct Hin as [Heq | []]. inversion Heq; subst k. cbn in Hk. apply negb_true_iff in Hk. exact Hk.
+    + destruct Hin as [Heq | []]. discriminate.
+Qed.
+
+(* nothing is dropped: every input is covered by some alternative *)
+Lemma assert_complete : forall c v, exists f k, In (f, k) (assert_alternatives V chk c) /\ k v = true.
+Proof.
+  intros c v. unfold assert_alternatives. destruct (assert_all_fail (chk c)).
+  - exists true, (fun _ => true). split; [left; reflexivity | reflexivity].
+  - exists false, (fun _ => true). split; [apply in_or_app; right; left; reflexivity | reflexivity].
+Qed.
+
+Lemma assume_complete : forall c v, c v = true -> exists k, In k (assume_alternatives V c) /\ k v = true.
+Proof. intros c v H. exists c. split; [left; reflexivity | exact H]. Qed.
 
 End Proofs.
 
